@@ -39,7 +39,7 @@ TReset ==
   /\ wire' = [c \in Conns |-> <<>>] /\ rbuf' = [c \in Conns |-> <<>>]
   /\ cseg' = [c \in Conns |-> 0] /\ peer' = [c \in Conns |-> "open"]
   /\ pc' = [c \in Conns |-> "reading"] /\ cur' = [c \in Conns |-> 0]
-  /\ hpos' = [c \in Conns |-> 0] /\ hfail' = [c \in Conns |-> FALSE]
+  /\ hpos' = [c \in Conns |-> 0] /\ hfail' = [c \in Conns |-> FALSE] /\ hc' = [c \in Conns |-> FALSE]
   /\ out' = [c \in Conns |-> <<>>] /\ disp' = [c \in Conns |-> <<>>]
   /\ hlog' = [c \in Conns |-> <<>>] /\ cut' = [c \in Conns |-> <<>>]
   /\ active' = Cardinality(Conns)
@@ -125,5 +125,5 @@ TraceAccepted ==
   ELSE /\ PrintT(<<"TRACE-REJECTED at line", TLCGet(1), "of", Len(TraceLog)>>)
        /\ IF TLCGet(1) <= Len(TraceLog) THEN PrintT(<<"UNMATCHED", ToJson(TraceLog[TLCGet(1)])>>) ELSE TRUE
        /\ FALSE
-TView == <<scen, wire, rbuf, cseg, peer, pc, cur, hpos, hfail, out, disp, hlog, active, l, seen, pend>>
+TView == <<scen, wire, rbuf, cseg, peer, pc, cur, hpos, hfail, hc, out, disp, hlog, active, l, seen, pend>>
 =============================================================================
